@@ -82,6 +82,9 @@ pub enum Tweak {
     ReqTok(Vec<u8>),
     /// `clear_option(n)` on the reply: leaves an emptied entry behind
     Clr(u16),
+    /// the prepared reply is gone when the error is applied (`response.take()`, or a request object
+    /// that was not built by `from_packet`): there is nothing to apply the error to
+    NoResp,
 }
 
 fn case_err(cx: &mut Ctx, spec: &PktSpec, code: Option<u8>, msg: &[u8], pre: &[(u16, Vec<u8>)]) {
@@ -100,6 +103,7 @@ pub fn case_err_tweaked(cx: &mut Ctx, spec: &PktSpec, code: Option<u8>, msg: &[u
             Tweak::ReqMid(m) => format!("rmid={}", m),
             Tweak::ReqTok(t) => format!("rtok={}", hex(t)),
             Tweak::Clr(n) => format!("clr={}", n),
+            Tweak::NoResp => "noresp".to_string(),
         });
     }
     let pretok = parts.join(",");
@@ -132,6 +136,7 @@ pub fn case_err_tweaked(cx: &mut Ctx, spec: &PktSpec, code: Option<u8>, msg: &[u
             match t {
                 Tweak::ReqMid(m) => req.message.header.message_id = *m,
                 Tweak::ReqTok(t) => req.message.set_token(t.clone()),
+                Tweak::NoResp => req.response = None,
                 _ => {}
             }
         }
@@ -303,6 +308,17 @@ pub fn run(cx: &mut Ctx) {
                     let tw: Vec<Tweak> = clr.iter().map(|n| Tweak::Clr(*n)).collect();
                     case_err_tweaked(cx, &spec, code, b"gone", &pre, &tw);
                 }
+            }
+        }
+    }
+    // the prepared reply is gone (taken by the transport, or a request object not made by from_packet)
+    // when the error arrives: failure is reported and no reply materialises, whatever the message type
+    for typ in 0..4u8 {
+        for code in [Some(0x84u8), Some(0x45), Some(0xA0), Some(0x5f), None] {
+            for tkl in [0usize, 2, 8] {
+                let spec = PktSpec { vtt: 0x40 | typ << 4 | tkl as u8, code: CodeSpec::Byte(1), mid: 0x4444, tok: vec![0xab; tkl], opts: vec![(11, b"r".to_vec())], payload: vec![] };
+                case_err_tweaked(cx, &spec, code, b"late", &[], &[Tweak::NoResp]);
+                case_err_tweaked(cx, &spec, code, b"late", &[(12, vec![50])], &[Tweak::ReqMid(7), Tweak::NoResp]);
             }
         }
     }
